@@ -502,6 +502,12 @@ func (m *model) expand(s string) string {
 					return kv.V
 				}
 			}
+			if name == "TX" && len(key) <= 2 {
+				// TX.0 .. TX.10 exist in every transaction (empty until a capture fills them)
+				if n, err := strconv.Atoi(key); err == nil && n >= 0 && n <= 10 && strconv.Itoa(n) == key {
+					return ""
+				}
+			}
 			m.amb("macro names an undefined key: " + tok)
 			return ""
 		}
@@ -536,8 +542,8 @@ func (m *model) setvar(sv Setvar) {
 		}
 		m.lvlAssign[key]["=1"] = true
 	case "=":
-		if val == "" {
-			m.amb("setvar assigns an empty value")
+		if val == "" && sv.Val == "" {
+			m.amb("setvar assigns an empty literal")
 		}
 		if len(val) > 0 && (val[0] == '+' || val[0] == '-') {
 			m.amb("setvar assigns a value starting with a sign")
